@@ -253,7 +253,27 @@ class WorkerState:
     def expr(self, c):
         import sys as _sys
         from props import c10
-        engine = self.engine(N=c.get('N'), Q=c.get('Q'), conv_in=c.get('conv_in', True), raw=c.get('raw', False))
+        via = c.get('via', 'create')
+        per_call = None
+        if via == 'create':
+            engine = self.engine(N=c.get('N'), Q=c.get('Q'), conv_in=c.get('conv_in', True), raw=c.get('raw', False))
+        else:
+            # the limits arrive through engine.copy(options) / engine(text, options=...) of an engine WITHOUT limits that
+            # has parsed the same text before (hosts keep one base engine and tighten it per tenant / per request)
+            base = self.engine(N=None, Q=None, conv_in=c.get('conv_in', True), raw=c.get('raw', False))
+            try:
+                base(c['expr'])
+            except Exception:      # noqa
+                pass
+            o = {}
+            if c.get('N') is not None:
+                o['yaql.limitIterators'] = c['N']
+            if c.get('Q') is not None:
+                o['yaql.memoryQuota'] = c['Q']
+            if via == 'copy':
+                engine = base.copy(o)
+            else:
+                engine, per_call = base, o
         ctx = self.root.create_child_context()
         log, probes, inner = [], [], []
         elem = c.get('elem', 'int')
@@ -277,7 +297,8 @@ class WorkerState:
             data = 1 << c['bigbits']
         out = dict(maxlen=None, size=None)
         try:
-            r = engine(c['expr']).evaluate(data=data, context=ctx)
+            st = engine(c['expr'], options=per_call) if per_call else engine(c['expr'])
+            r = st.evaluate(data=data, context=ctx)
             out['outcome'] = 'returned'
             out['size'] = _sys.getsizeof(r, 0)
             inner.append(hidden(r))
@@ -499,6 +520,9 @@ def describe_sweep(c):
     return '%s with %s%s as parameter `%s` (lambdas: %s%s)' % (
         c['fn'], v, ' inside a one-element list' if c['wrap'] == 'in_list' else '', c['target'], c['lam'], fl)
 
+
+VIA_TEXT = {'copy': ' [limits set with engine.copy(options) of a base engine that parsed the text before]',
+            'call': ' [limits set with engine(text, options=...) of a base engine that parsed the text before]'}
 
 EXPRS = [
     # (expression, element kind of src(), known-finding key or None)
@@ -831,7 +855,8 @@ def judge_quota(env, res, c, out, hist):
     if oc == 'skipped':
         return
     Q = c['Q']
-    what = '%s%s under yaql.memoryQuota=%d' % (c['expr'][:120], ' ($ = %s of %d)' % (c.get('kind'), c.get('n')) if c['sub'] == 'rep' else '', Q)
+    what = '%s%s under yaql.memoryQuota=%d%s' % (c['expr'][:120], ' ($ = %s of %d)' % (c.get('kind'), c.get('n')) if c['sub'] == 'rep' else '', Q,
+                                                   VIA_TEXT.get(c.get('via'), ''))
     if oc in ('timeout', 'worker-died', 'MemoryError'):
         res.fail('oracle', 'quota-not-refused:' + ('repeat' if '*' in c['expr'] else c['expr'][:30]),
                  '%s ended in %s instead of MemoryQuotaExceededException' % (what, oc), c)
@@ -968,7 +993,16 @@ def run(env, res):
     for e, elem, known in EXPRS:
         for N in NS:
             cases.append(dict(op='expr', part='E', expr=e, elem=elem, N=N, known=known, conv_in=True))
+            # the same bound must hold when the limit comes from engine.copy(options) / engine(text, options=...)
+            via = rng.choice(['copy', 'call'])
+            if tier != 'quick' or rng.random() < 0.5:
+                cases.append(dict(op='expr', part='E', expr=e, elem=elem, N=N, known=known, conv_in=True, via=via))
     qcases = quota_cases(rng, tier, sizes)
+    qvia = []
+    for qc in qcases:
+        if qc.get('op') == 'expr' and rng.random() < (0.15 if tier == 'quick' else 0.5):
+            qvia.append(dict(qc, via=rng.choice(['copy', 'call'])))
+    qcases += qvia
     allc = cases + qcases
     # the cases known to hang first, so that their watchdog time overlaps with the rest
     order = sorted(range(len(allc)), key=lambda i: (not (allc[i].get('part') in ('S', 'E') and known_nested(allc[i])),
@@ -986,7 +1020,7 @@ def run(env, res):
             if out['outcome'] == 'skipped':
                 qhist['Q:skipped'] = qhist.get('Q:skipped', 0) + 1
                 continue
-            res.case('Q' + common.digest([c['expr'], c['data'], c['Q'], c.get('bigbits')]), out['outcome'] in ('returned', 'Quota'),
+            res.case('Q' + common.digest([c['expr'], c['data'], c['Q'], c.get('bigbits'), c.get('via')]), out['outcome'] in ('returned', 'Quota'),
                      sample=dict(expr=c['expr'], Q=c['Q'], outcome=out['outcome']) if res.evaluations % 700 == 0 else None)
             judge_quota(env, res, c, out, qhist)
             continue
@@ -999,7 +1033,7 @@ def run(env, res):
             positions.add((c['fn'], c['target']))
             what = describe_sweep(c)
         else:
-            what = '`%s` (src(): %s)' % (c['expr'], c['elem'])
+            what = '`%s` (src(): %s)%s' % (c['expr'], c['elem'], VIA_TEXT.get(c.get('via'), ''))
         res.case(c['op'] + common.digest(c), nontrivial,
                  sample=dict(what=what, N=c['N'], outcome=out['outcome'], pulls=out.get('pulls')) if res.evaluations % 1500 == 0 else None)
         judge_bound(res, c, out, hist, what)
